@@ -1,2 +1,18 @@
 import Yuiv.Drv.C05
-def main : IO Unit := Yuiv.Drv.loop Yuiv.Drv.C05.handle
+/-- line loop with a session (the `eg` requests of the engine stream are stateful) -/
+partial def main : IO Unit := do
+  let stdin ← IO.getStdin
+  let stdout ← IO.getStdout
+  let rec go (sess : Yuiv.Drv.C05.Eng.Sess) : IO Unit := do
+    let line ← stdin.getLine
+    if line.isEmpty then return ()
+    let t := Yuiv.Drv.toks line
+    if t.isEmpty then
+      stdout.putStrLn ""
+      go sess
+    else
+      let (sess', r) := Yuiv.Drv.C05.handleSt sess t
+      stdout.putStrLn r
+      go sess'
+  go []
+  stdout.flush
